@@ -118,7 +118,7 @@ Theorem C20_extract_delivers :
     (wc_encrypt cfg = true ->
        len (wc_key cfg) = 32 /\ len (wc_nonce cfg) = 8 /\
        (forall i c, len (tagf (wc_key cfg) (wc_nonce cfg) i c) = TAG) /\
-       nfull CHUNK (len (mid_of BLOCK cfg blocks)) + 2 < 2 ^ 32 /\
+       (nfull CHUNK (len (mid_of BLOCK cfg blocks)) + 2 < 2 ^ 32 /\ CHUNK + TAG <= 2 ^ 31) /\
        dh s (pubk (wc_eph cfg)) = dh (wc_eph cfg) (pubk s) /\
        In (pubk s) (wc_recipients cfg) /\ In s privs) ->
     config_size (to_persistent pubk dh kdf wenc wtag cfg) <= LIMIT ->
